@@ -308,4 +308,80 @@ theorem count_fast_path_hyp_kinds (km : KindMap) (g : Graph) (hinj : ∀ a b i, 
   intro n _
   exact ben_kinds km n _ hinj ks e he
 
+/-! ### `opt_equiv`: the full statement's body for the model translator pair on the proved fragment -/
+
+theorem countOptW_eq (w : Option Expr) : countOptW w = cfpOptW w := rfl
+theorem countUnoptW_eq (w : Option Expr) : countUnoptW w = cfpUnoptW w := rfl
+
+/-- the frame predicate of the count fragment computes a node predicate -/
+theorem countWhere_ok (km : KindMap) (g : Graph) (hinj : ∀ a b i, km.id? a = some i → km.id? b = some i → a = b) (ks : List String)
+    (w : Option Expr) (h : countWhere km ks = some w) : ∃ wsem, WOK km g (E0 (encode km g)) w wsem := by
+  unfold countWhere at h
+  cases hk : ks.isEmpty with
+  | true => simp only [hk, if_true, Option.some.injEq] at h; subst h; exact ⟨none, trivial⟩
+  | false =>
+    simp only [hk, Bool.false_eq_true, if_false, Option.map_eq_some_iff] at h
+    obtain ⟨e, he, hw⟩ := h
+    subst hw
+    exact ⟨_, count_fast_path_hyp_kinds km g hinj ks e he⟩
+
+/-- `trOpt` / `trUnopt` answer together, and either with the SAME statement (stages S1 and S2a: the optimiser changes nothing there) or with
+the two count statements over the same frame predicate -/
+theorem trOpt_cases (km : KindMap) (q : Cy.Query) (so su : Stmt) (po pu : List (String × Val))
+    (ho : trOpt km q = some (so, po)) (hu : trUnopt km q = some (su, pu)) :
+    (C01.tr2 km q = some (so, po) ∧ su = so ∧ pu = po) ∨
+    (∃ ks w, ofCyCount q = some ks ∧ countWhere km ks = some w ∧ so = countOptW w ∧ su = countUnoptW w ∧ po = [] ∧ pu = []) := by
+  unfold trOpt at ho
+  unfold trUnopt at hu
+  cases h2 : C01.tr2 km q with
+  | some r =>
+    rw [h2] at ho hu
+    cases ho; cases hu
+    exact Or.inl ⟨rfl, rfl, rfl⟩
+  | none =>
+    rw [h2] at ho hu
+    dsimp only at ho hu
+    cases hc : ofCyCount q with
+    | none => rw [hc] at ho; cases ho
+    | some ks =>
+      rw [hc] at ho hu
+      dsimp only at ho hu
+      cases hw : countWhere km ks with
+      | none => rw [hw] at ho; cases ho
+      | some w =>
+        rw [hw] at ho hu
+        cases ho; cases hu
+        exact Or.inr ⟨ks, w, rfl, hw, rfl, rfl, rfl, rfl⟩
+
+/-- `opt_equiv`: `C02_full` holds for the model translator pair (`trOpt`, `trUnopt`) — for every graph with `GraphOK` and every query of the
+proved fragment (C01 stages S1 and S2a, and `MATCH (n[:K…]) RETURN count(n)`), whenever both statements evaluate they return the same rows
+(here even the same table). The only optimisation that changes a statement of this fragment is the count-store fast path; that the REAL
+translator's two outputs are these statements is checked on every run (driver outcome `frag-tie`). -/
+theorem opt_equiv : C02_full trOpt trUnopt := by
+  intro km g q so su po pu hok ho hu to tu hto htu
+  rcases trOpt_cases km q so su po pu ho hu with ⟨_, hs, hp⟩ | ⟨ks, w, _, hw, hso, hsu, hpo, hpu⟩
+  · subst hs hp
+    rw [hto] at htu; cases htu
+    exact List.Perm.refl _
+  · subst hso hsu hpo hpu
+    obtain ⟨wsem, hwok⟩ := countWhere_ok km g hok.inj ks w hw
+    obtain ⟨h1, h2⟩ := count_fast_path_preserves km g w wsem hwok
+    rw [countOptW_eq] at hto
+    rw [countUnoptW_eq] at htu
+    have e1 : to = ⟨["count"], [[.int (passing g wsem)]]⟩ := by
+      rcases h1 with h | ⟨u, h⟩
+      · rw [h] at hto; cases hto; rfl
+      · rw [h] at hto; cases hto
+    have e2 : tu = ⟨["count"], [[.int (passing g wsem)]]⟩ := by
+      rcases h2 with h | ⟨u, h⟩
+      · rw [h] at htu; cases htu; rfl
+      · rw [h] at htu; cases htu
+    rw [e1, e2]
+
+/-- the fragment is inhabited on both branches -/
+def exCountRet : Cy.Projection :=
+  { distinct := false, all := false, items := [⟨.fn "count" false [.var "n"], none⟩], orderBy := [], skip := none, limit := none }
+def exCount : Cy.Query := { parts := [], clauses := [.match false [.mk none false false (.mk (some "n") ["User"] []) []] none], ret := exCountRet }
+example : (trOpt [("User", 1)] exCount).isSome = true := by decide +kernel
+
 end Dawgs.C02.Props
